@@ -31,7 +31,7 @@ itself (`tools/replay_all_seeds.sh`: `git -C /repo apply`, quick check, `git -C 
 committed to /repo.  To replay one against /repo itself: `python3 tools/try_seed.py seeded/<id> <property> --in-repo`
 (applies the patch with `git -C /repo apply`, runs the checks, undoes it with `git -C /repo checkout -- .`).
 
-Eight rounds (the last for ten properties only).  Every round after the first was told which files and mechanisms the earlier ones had used and asked for a
+Eight rounds.  Every round after the first was told which files and mechanisms the earlier ones had used and asked for a
 different layer, and each was pointed at another axis of variation: b - another layer; c - rarely used options, second
 calls on the same object, boundary sizes; d - unusual option combinations and numerical branches; e - the kind of system
 (basis contraction, units, extended or pruned systems, object histories) for the twelve properties that see molecules and
@@ -40,7 +40,7 @@ workflows on live objects (SCF loops, scanners, copies, attribute changes betwee
 objects) for the ten properties with stateful objects, and the less used of two equivalent entry points for the other
 ten; g - size and range thresholds inside the code (block lengths, table sizes, small-case fast paths, remainders) for
 ten properties with C code or blocking, and legal but unusual parameter values (extreme or integer-typed length scales,
-repeated indices, negative slice starts, orders off the usual grid) for the other ten; h (ten properties) - combinations of parts that each work alone (several kernels in one model, several nonlocal families or parameter sets in one settings object, mixed evaluator / map classes, the offset bookkeeping between blocks).  One round-g patch (C03g) was
+repeated indices, negative slice starts, orders off the usual grid) for the other ten; h - combinations of parts that each work alone (several kernels in one model, several nonlocal families or parameter sets in one settings object, mixed evaluator / map classes, the offset bookkeeping between blocks).  One round-g patch (C03g) was
 re-expressed by hand on top of a repository fix made after the sub-agent wrote it (same mechanism; the original is kept).
 %(n)d changes are kept; %(first)d were caught by the checks as they stood, %(missed)d were missed at first and led to a
 strengthened check (column *history*; entries reading "would have been missed" were strengthened on reading the seed's
@@ -48,7 +48,7 @@ trigger, before the trial, because the generator provably lacked that input).  E
 input class, order or history the generator did not produce; the exception (C04d) was an oracle weakness: finite-difference
 errors were scaled by the analytic outputs only, so a derivative that was wrongly zero where the value is zero was dropped as
 unresolved.  No miss was a tolerance, and every strengthened check stayed silent on the unchanged tree over VERIF_SEED 0-4.
-Miss rate by round: a 9/20, b 7/20, c 11/20, d 3/20, e 11/20, f 9/20 (7 of the first ten, 2 of the second ten), g 12/20, h 5/10 — round d (same axes as before: options, branches) hit generators
+Miss rate by round: a 9/20, b 7/20, c 11/20, d 3/20, e 11/20, f 9/20 (7 of the first ten, 2 of the second ten), g 12/20, h 8/20 — round d (same axes as before: options, branches) hit generators
 already widened by the earlier rounds, rounds e – h opened new axes (kind of system, form of the data, user workflows, equivalent entry points, size thresholds, edge parameter values, combinations of parts) and found gaps again: the honest reading
 is that each new axis of variation costs a round, not that the generators are complete.  After strengthening, every kept change is caught by the quick tier of its property's check;
 several are also caught by a neighbouring property's check (listed).  What this does *not* show: the seeds are the
